@@ -57,6 +57,12 @@ def queries(ctx):
         for n in range(1, (K if fn < 9 else (2 if quick else 3)) + 1):
             for al in ((0, 1, 2) if fn < 8 else (0, 1) if fn == 8 else (0,)):
                 add("mpn_%s.n%d.alias%d" % (nm, n, al), "C10_mpn_logic.c", LOGIC + [G + "com_n.c"], {"N": n, "FN": fn, "ALIAS": al}, n + 3, [G + nm + ".c:mpn_" + nm])
+    # popcount/hamdist main loop works on blocks of four limbs: D-PAT (4-bit selectors per limb) reaches whole blocks, block + tail, two blocks
+    for fn, nm in ((9, "popcount"), (10, "hamdist")):
+        t = 4 if fn == 9 else 2      # hamdist has two operands: 2-bit selectors (0, B-1, 1, B/2) per limb; measured 235 s at 4 bits for n = 4
+        for n in (((4, 5, 8) if fn == 9 else (4, 5)) if quick else (3, 4, 5, 6, 7, 8, 9, 12)):
+            qs.append(Query("mpn_%s.n%d.pat%d" % (nm, n, t), "C10_mpn_logic.c", LOGIC + [G + "com_n.c"], {"N": n, "FN": fn, "ALIAS": 0, "PAT": t}, unwind=n + 3, hunwind=18,
+                            timeout=300 if quick else 900, funcs=[G + nm + ".c:mpn_" + nm], domain="D-PAT(%d bits/limb)" % t))
     for fn, nm in ((11, "scan0"), (12, "scan1")):
         for n in range(1, K + 1):
             for st in sorted(set([0, 1, 63, 64 * (n - 1), 64 * (n - 1) + 63, 64 * (n // 2) + 7])):
